@@ -215,6 +215,12 @@ def m_str_with_quote(draw, ir):
     p["default"] = draw(st.sampled_from(('say "hi"', 'a "b.c" d', 'it\'s "so"')))
 
 
+def m_str_with_bracket(draw, ir):
+    """A string default with an unmatched bracket inside (bracket counting must not outlive the value it scans)."""
+    p = _ensure_param(draw, ir, "str")
+    p["default"] = draw(st.sampled_from(("(", "a [b", "f(x", "}", "[0")))
+
+
 def m_str_with_squote(draw, ir):
     """The other quote character (and a full stop after it): must survive - nothing needs escaping."""
     p = _ensure_param(draw, ir, "str")
@@ -431,6 +437,14 @@ def m_zero_int(draw, ir):
     p["default"] = 0
 
 
+def m_optional_zero(draw, ir):
+    """An optional parameter with an explicit zero-valued default (0, 0.0, False): 'not required' AND a falsy value."""
+    p = _ensure_param(draw, ir)
+    t, v = draw(st.sampled_from((("int", 0), ("float", 0.0), ("bool", False))))
+    p["typ"] = "Optional[%s]" % t
+    p["default"] = v
+
+
 def m_bool_false(draw, ir):
     p = _ensure_param(draw, ir, "bool")
     p["default"] = False
@@ -631,6 +645,8 @@ def param_tags(p, prev_has_default=False):
                 t.add("str_with_dot")
             if d == "":
                 t.add("empty_str")
+            if any(d.count(o) != d.count(c) for o, c in ("()", "[]", "{}")):
+                t.add("str_with_bracket")
             if '"' in d:
                 t.add("str_with_quote")
             if "'" in d:
